@@ -60,14 +60,17 @@ static int add_integer(yaml_document_t *document, int value)
  */
 static int add_double(yaml_document_t *document, double value, int precision)
 {
-    char buf[3 * sizeof(double) + 10];
+    char *buf = NULL;
     int tag;
 
     assert(precision >= 1);
-    (void)sprintf(buf, "%.*e", precision - 1, value);
-    if ((tag = yaml_document_add_scalar(document, NULL,
-		    (yaml_char_t *)buf, strlen(buf),
-		    YAML_ANY_SCALAR_STYLE)) == 0) {
+    if (asprintf(&buf, "%.*e", precision - 1, value) == -1) {
+	return -1;
+    }
+    tag = yaml_document_add_scalar(document, NULL,
+	    (yaml_char_t *)buf, strlen(buf), YAML_ANY_SCALAR_STYLE);
+    free((void *)buf);
+    if (tag == 0) {
 	return -1;
     }
     return tag;
@@ -84,20 +87,25 @@ static int add_complex(yaml_document_t *document, double complex value,
 {
     double real = creal(value);
     double imag = cimag(value);
-    char buf[3 * sizeof(double complex) + 20];
+    char *buf = NULL;
+    int rc;
     int tag;
 
     assert(precision >= 1);
     if (precision == VNACAL_MAX_PRECISION) {
-	(void)sprintf(buf, "%+a %+aj", real, imag);
+	rc = asprintf(&buf, "%+a %+aj", real, imag);
     } else {
-	(void)sprintf(buf, "%+.*e %+.*ej",
+	rc = asprintf(&buf, "%+.*e %+.*ej",
 		precision - 1, real,
 		precision - 1, imag);
     }
-    if ((tag = yaml_document_add_scalar(document, NULL,
-		    (yaml_char_t *)buf, strlen(buf),
-		    YAML_ANY_SCALAR_STYLE)) == 0) {
+    if (rc == -1) {
+	return -1;
+    }
+    tag = yaml_document_add_scalar(document, NULL,
+	    (yaml_char_t *)buf, strlen(buf), YAML_ANY_SCALAR_STYLE);
+    free((void *)buf);
+    if (tag == 0) {
 	return -1;
     }
     return tag;
